@@ -41,6 +41,34 @@ def setup(case, mode):
     patch(MK, 'print', lambda *a, **k: None)
     patch(MK, 'print_timing', lambda **k: None)
     patch(PAR, 'print', lambda *a, **k: None)
+    if case.get('thresholds'):
+        install_threshold_spies()
+
+
+THRESHOLDS = {'p_th': (0.01, 0.02), 'q1_th': (0.5, 0.6),
+              'q1_min_th': (0.1, 0.2), 'qdiff_th': (0.7, 0.8),
+              'qdiff_min_th': (0.1, 0.2), 'log2_fold_th': (1.0, 0.9),
+              'log2_fold_min_th': (0.8, 0.7)}
+SEEN = {'calls': []}
+
+
+def install_threshold_spies():
+    """record the thresholds with which the stage calls the criteria
+    kernels (whose behaviour for arbitrary thresholds is the subject of
+    the symbolic kernel harnesses)"""
+    import cell_type_mapper.diff_exp.p_value_mask as PV
+
+    def spy(mod, name):
+        real = getattr(mod, name)
+
+        def f(*a, **k):
+            SEEN['calls'].append((name, {t: k[t] for t in THRESHOLDS
+                                         if t in k}))
+            return real(*a, **k)
+        patch(mod, name, f)
+    spy(MK, 'score_differential_genes')
+    spy(PV, 'penetrance_parameter_distance')
+    spy(PV, 'diffexp_p_values_from_stats')
 
 
 def cells_of(leaf, n):
@@ -264,6 +292,16 @@ def run_stage(ctx, case, faults=False):
             res['prior_mask'] = PRIOR_KINDS[ctx.choice('left_at_mask', 3)]
             plant(out + '.p_value_mask.h5', res['prior_mask'], 'mask')
 
+    th = {}
+    if case.get('thresholds'):
+        # one threshold (any) away from its default
+        names = sorted(THRESHOLDS)
+        w = ctx.choice('non_default_threshold', len(names) + 1)
+        th = {t: THRESHOLDS[t][1 if i + 1 == w else 0]
+              for i, t in enumerate(names)}
+        SEEN['calls'] = []
+    res['thresholds'] = th
+
     def go(path, nproc, faults_on):
         mpmodel.SCHED.reset(K=case.get('K', 0), faults=faults_on,
                             fault_modes=case.get('fault_modes'),
@@ -274,7 +312,7 @@ def run_stage(ctx, case, faults=False):
                     stats, tree, path, n_processors=nproc,
                     tmp_dir=os.path.join(root, 'scratch'),
                     exact_penetrance=exact, n_valid=n_valid, gene_list=gl,
-                    max_gb=1)
+                    max_gb=1, **th)
             else:
                 import cell_type_mapper.diff_exp.p_value_mask as PV
                 import cell_type_mapper.diff_exp.p_value_markers as PVM
@@ -283,7 +321,7 @@ def run_stage(ctx, case, faults=False):
                 res['mask_stage_failed'] = True
                 PV.create_p_value_mask_file(
                     stats, mask, n_processors=nproc,
-                    tmp_dir=os.path.join(root, 'scratch'), n_per=8)
+                    tmp_dir=os.path.join(root, 'scratch'), n_per=8, **th)
                 res['mask_stage_failed'] = False
                 PVM.find_markers_for_all_taxonomy_pairs_from_p_mask(
                     stats, mask, path, n_processors=nproc,
@@ -354,6 +392,24 @@ def run_cli(ctx, case, faults=True):
             'nproc': nproc, 'stats': stats}
 
 
+def check_thresholds(ctx, res):
+    """the criteria kernels are called with the caller's thresholds"""
+    th = res['thresholds']
+    calls = list(SEEN['calls'])
+    ctx.check(len(calls) > 0, 'the criteria kernels were called')
+    bad = sorted({(name, t) for name, kw in calls for t, v in kw.items()
+                  if v != th[t]})
+    ctx.check(bad == [], 'every threshold reaches the criteria kernels '
+              f'as configured; differing: {bad[:3]}')
+    need = {'score_differential_genes': set(THRESHOLDS),
+            'penetrance_parameter_distance': set(THRESHOLDS) - {'p_th'},
+            'diffexp_p_values_from_stats': {'p_th'}}
+    miss = sorted({(name, t) for name, kw in calls
+                   for t in need[name] - set(kw)})
+    ctx.check(miss == [], 'no threshold is left to a default of the '
+              f'kernel; missing: {miss[:3]}')
+
+
 def check_tables(ctx, res):
     mk = read_markers(res['out'])
     ng = len(GENES)
@@ -393,6 +449,9 @@ def check_tables(ctx, res):
             isup = g in up[i]
             ctx.check(isup == bool(mb[g] > ma[g]),
                       'direction == sign of the difference of means')
+        if res.get('thresholds') and any(
+                v != THRESHOLDS[t][0] for t, v in res['thresholds'].items()):
+            continue          # the data oracle knows the defaults only
         want = oracle_valid(res['prof'], a, b)
         for g in range(ng):
             if want[g] is None or (gl is not None and GENES[g] not in gl):
